@@ -111,8 +111,10 @@ inline uint64_t mix(uint64_t h, const T & v)
 // ---------------------------------------------------------------- state
 struct State {
     uint64_t ev = 0;
+    uint64_t nt_enum = 0;  // non-trivial cases counted inside a never-repeating enumerator
     std::unordered_set<uint64_t> nt;
     std::map<std::string, uint64_t> stats;
+    std::map<std::string, uint64_t> maxs;
     std::map<std::string, std::unordered_set<uint64_t>> sets;
     std::map<std::string, uint64_t> viol_count;
     std::map<std::string, int> sample_count;
@@ -135,9 +137,20 @@ inline void nontrivial(uint64_t h)
 {
     st().nt.insert(h);
 }
+// for exhaustive enumerations whose cases are distinct by construction (mixed-radix
+// counters): count without storing 10^7 hashes
+inline void nontrivial_enumerated(uint64_t n = 1)
+{
+    st().nt_enum += n;
+}
 inline void stat(const std::string & name, uint64_t n = 1)
 {
     st().stats[name] += n;
+}
+inline void maxstat(const std::string & name, uint64_t v)
+{
+    uint64_t & m = st().maxs[name];
+    if (v > m) m = v;
 }
 inline void seen(const std::string & name, uint64_t h)
 {
@@ -199,12 +212,15 @@ inline void flush_counters()
 {
     State & s = st();
     std::printf("@EV %" PRIu64 "\n", s.ev);
-    std::printf("@NT %zu\n", s.nt.size());
+    std::printf("@NT %" PRIu64 "\n", (uint64_t)s.nt.size() + s.nt_enum);
     for (auto & kv : s.stats) std::printf("@STAT %s %" PRIu64 "\n", kv.first.c_str(), kv.second);
+    for (auto & kv : s.maxs) std::printf("@MAX %s %" PRIu64 "\n", kv.first.c_str(), kv.second);
+    s.maxs.clear();
     for (auto & kv : s.sets) std::printf("@SET %s %zu\n", kv.first.c_str(), kv.second.size());
     for (auto & kv : s.viol_count)
         if (kv.second > 3) std::printf("@STAT viol_suppressed:%s %" PRIu64 "\n", kv.first.c_str(), kv.second - 3);
     s.ev = 0;
+    s.nt_enum = 0;
     s.nt.clear();
     s.stats.clear();
     s.sets.clear();
@@ -265,6 +281,7 @@ inline ChildResult in_child(const std::function<int()> & f, unsigned watchdog_s 
         // fresh counters in the child: the parent keeps its own
         State & s = st();
         s.ev = 0;
+        s.nt_enum = 0;
         s.nt.clear();
         s.stats.clear();
         s.sets.clear();
